@@ -36,6 +36,10 @@ type propInfo struct {
 	Real      []string
 	Stub      []string
 	Assume    []string
+	LevelText string
+	LevelNote string
+	Technique string
+	DesignRef string
 }
 
 var props = map[string]*propInfo{}
@@ -62,6 +66,7 @@ type outcome struct {
 	Trace      []string         `json:"trace,omitempty"`
 	Sample     json.RawMessage  `json:"sample,omitempty"`
 	Infra      string           `json:"infra,omitempty"`
+	Leak       string           `json:"leak,omitempty"`
 }
 
 type record struct {
@@ -392,6 +397,7 @@ func cmdRun(args []string) {
 	workers := fs.Int("workers", 16, "worker processes")
 	budget := fs.Float64("budget", 0, "override search budget (s)")
 	maxRuns := fs.Int("runs", 0, "cap on runs per worker (0 = budget only)")
+	scan := fs.Bool("scan", false, "triage mode: keep going after violations, print a class/sig table, no minimisation, no evidence")
 	fs.Parse(args)
 	p := props[*propID]
 	if p == nil {
@@ -437,7 +443,7 @@ func cmdRun(args []string) {
 		wg.Add(1)
 		go func(w int) {
 			defer wg.Done()
-			j := job{Mode: "run", Property: p.ID, Seed: seed, Start: w, Stride: *workers, Count: count, Tier: *tier, BudgetS: bs}
+			j := job{Mode: "run", Property: p.ID, Seed: seed, Start: w, Stride: *workers, Count: count, Tier: *tier, BudgetS: bs, KeepGoing: *scan}
 			results[w] = runWorker(bin, j, b.scratch, fmt.Sprintf("w%d", w), time.Duration(bs+90)*time.Second)
 		}(w)
 	}
@@ -471,6 +477,59 @@ func cmdRun(args []string) {
 		}
 	}
 	known := loadFindings()
+	if *scan {
+		type ex struct {
+			n      int
+			detail string
+			seed   uint64
+		}
+		tab := map[string]*ex{}
+		for _, v := range viols {
+			k := v.rec.Outcome.Violation.Class + " | " + v.rec.Outcome.Violation.Sig
+			if matchFinding(known, p.ID, v.rec.Outcome.Violation.Class, v.rec.Outcome.Violation.Sig) != nil {
+				k = "[known] " + k
+			}
+			if tab[k] == nil {
+				tab[k] = &ex{detail: v.rec.Outcome.Violation.Detail, seed: v.rec.RunSeed}
+				os.MkdirAll(filepath.Join(verifDir, "replays", "scan"), 0o755)
+				file := map[string]any{"property": p.ID, "violation": v.rec.Outcome.Violation, "scenario": v.rec.Scenario}
+				data, _ := json.MarshalIndent(file, "", " ")
+				os.WriteFile(filepath.Join(verifDir, "replays", "scan", fmt.Sprintf("%s-%d.json", p.ID, v.rec.RunSeed)), data, 0o644)
+			}
+			tab[k].n++
+		}
+		ks := make([]string, 0, len(tab))
+		for k := range tab {
+			ks = append(ks, k)
+		}
+		sort.Strings(ks)
+		for _, k := range ks {
+			d := tab[k].detail
+			if len(d) > 500 {
+				d = d[:500]
+			}
+			fmt.Printf("%5d  %s\n        seed=%d %s\n", tab[k].n, k, tab[k].seed, d)
+		}
+		leaks := map[string]int{}
+		for _, r := range results {
+			for _, rec := range r.records {
+				if rec.Outcome != nil && rec.Outcome.Leak != "" {
+					leaks[rec.Outcome.Leak]++
+				}
+			}
+		}
+		for l, n := range leaks {
+			fmt.Printf("LEAK x%d:\n%s\n", n, l)
+		}
+		for _, s := range infra {
+			if len(s) > 1500 {
+				s = s[:1500]
+			}
+			fmt.Printf("INFRA: %s\n", s)
+		}
+		fmt.Printf("scan: %s runs=%d skipped=%d nontrivial=%d evals=%d probes=%v faults=%v\n", p.ID, a.runs, a.skipped, a.nontrivial, a.evals, a.probes, a.faults)
+		return
+	}
 	nKnown, nViol := 0, 0
 	reported := map[string]bool{}
 	knownSeen := map[string]bool{}
@@ -637,6 +696,8 @@ func main() {
 		cmdReplay(os.Args[2:])
 	case "selftest":
 		cmdSelftest(os.Args[2:])
+	case "manifest":
+		cmdManifest()
 	case "build":
 		b := newBuilder()
 		defer b.cleanup()
